@@ -114,3 +114,18 @@ package oracles
 //@   ensures issued: result1 == nil && (mathint(l.lastTimeStampTS) + mathint(l.n) <= 18446744073709551615 ==> mathint(result0) == mathint(l.lastTimeStampTS) + mathint(l.n))
 //@   ensures same: l.lastTimeStampTS == old(l.lastTimeStampTS) ==> l.n == old(l.n) + 1
 //@   ensures other: l.lastTimeStampTS != old(l.lastTimeStampTS) ==> l.n == 0
+
+// The other ways to ask the mock oracle for a timestamp go through GetTimestamp (so they are recorded and bumped the same way).
+//@ func (o *MockOracle) GetLowResolutionTimestamp
+//@   prop C13
+//@   may-panic
+//@   ensures recorded: result1 == nil ==> o.lastTS == result0 && result0 != old(o.lastTS)
+//@ func (m *mockOracleFuture) Wait
+//@   prop C13
+//@   may-panic
+//@   ensures recorded: result1 == nil ==> m.o.lastTS == result0 && result0 != old(m.o.lastTS)
+//@ func (l *localOracle) GetLowResolutionTimestamp
+//@   prop C13
+//@   may-panic
+//@   requires room: l.n < 18446744073709551615
+//@   ensures same: l.lastTimeStampTS == old(l.lastTimeStampTS) ==> l.n == old(l.n) + 1
